@@ -27,7 +27,7 @@ class C06(Check):
     pid = 'C06'
     level = 'model_checking'
     rule = ('Gregory-family rules on U(3,<=5) x seats x two tie orders, the wigm arithmetic menu on U(3,<=4), 4-candidate weighted profiles '
-            'W(4,2,3,{1,2}) and weighted W(3,3,3,{1,2,3,5,8}) (thorough: W(4,2,4,{1,2,3}), W(4,4,3,{1,2,3}), U(3,6..7)); '
+            'W(4,2,3,{1,2}) and weighted W(3,3,3,{2,3,5}), bullet piles BU(4) (thorough: W(3,3,3,{1,2,3,5,8}), W(4,2,4,{1,2,3}), W(4,4,3,{1,2,3}), U(3,6..7)); '
             'states = distinct (statuses, tallies, ballot positions+values) snapshots, transitions = distinct consecutive pairs, '
             'traces_validated = real counts stepped to the end in lock-step with the ballot model. non-trivial = counts in which some ballot was re-valued')
     assumptions = ['ballots are observed through Election.ballots[*].index/.weight/.multiplier beside every logged action; '
@@ -44,9 +44,10 @@ class C06(Check):
         yield from families.seats_ties(4, spaces.W(4, 2, 3, (1, 2)), seats=(2, 3), ties='id', cfgs=G + menu[::5])
         yield from families.withdrawn_family(3, spaces.U(3, 0, 4), G[:3] + G[5:], seats=(1, 2))
         yield from families.undeclared_family(3, spaces.U(3, 0, 4), [{'rule': 'mpls'}], seats=(1, 2))
-        yield from families.seats_ties(3, spaces.U(3, 5, 5), cfgs=G)
-        yield from families.seats_ties(3, spaces.W(3, 3, 3, (1, 2, 3, 5, 8)), seats=(1, 2), ties='id',
+        yield from families.seats_ties(3, spaces.U(3, 5, 5), ties='id' if tier == 'quick' else 'idrev', cfgs=G)
+        yield from families.seats_ties(3, spaces.W(3, 3, 3, (2, 3, 5) if tier == 'quick' else (1, 2, 3, 5, 8)), seats=(1, 2), ties='id',
                                        cfgs=G + (menu[::4] if tier == 'quick' else menu))
+        yield from families.seats_ties(4, spaces.BU(4), seats=(1, 2, 3), ties='id', cfgs=G)
         if tier == 'thorough':
             yield from families.seats_ties(4, spaces.W(4, 2, 4, (1, 2, 3)), seats=(2, 3), ties='id', cfgs=G + menu[::6])
             yield from families.seats_ties(3, spaces.U(3, 6, 6), cfgs=G)
